@@ -137,3 +137,11 @@ Qed.
 (* ---- Engine._recompute_step: changes are accumulated per node over the whole loop ------------------------------- *)
 Lemma gen_changes_acquire_is_model : gen_changes_acquire = model_changes_acquire.
 Proof. reflexivity. Qed.
+
+(* ---- Engine._recompute_one_cell: a swallowed OrderError still ends the evaluation, for every kind of cell ----------- *)
+Lemma gen_pending_reraise_is_model : gen_pending_reraise = model_pending_reraise.
+Proof. reflexivity. Qed.
+
+(* the model counterpart: a handler cannot intercept the read of a dirty cell *)
+Lemma model_dirty_read_cannot_be_handled vl isd c k : isd c = true -> eval vl isd (Read c k) = ONeed c.
+Proof. intros H. cbn [eval]. rewrite H. reflexivity. Qed.
